@@ -51,7 +51,15 @@ class ModuleSrc:
 
     def class_methods(self, cname):
         c = self.classes[cname]
-        return {n.name: n for n in c.body if isinstance(n, ast.FunctionDef)}
+        out = {}
+        for n in c.body:
+            if isinstance(n, ast.FunctionDef):
+                if any(isinstance(d, ast.Attribute) and d.attr in ('setter', 'deleter')
+                       for d in n.decorator_list):
+                    out.setdefault('__set__' + n.name, n)
+                    continue
+                out[n.name] = n
+        return out
 
     def class_bases(self, cname):
         c = self.classes[cname]
